@@ -56,7 +56,10 @@ pub fn provers(rec: &mut Rec, dmax: usize, max_pts: usize) {
     let deltas = [F::one(), -F::one(), rho::<F>(rec.seed, 1)];
     for deg in 0..=dmax {
         for (kn, ksize) in [("deg+1", deg + 1), ("deg+2", deg + 2), ("2deg", (2 * deg).max(deg + 1)), ("deg+5", deg + 5)] {
-            for pat in ["dense", "lowzero", "top"] {
+            for pat in ["dense", "lowzero", "top", "hizero", "alternating"] {
+                if (pat == "hizero" || pat == "alternating") && deg < 2 {
+                    continue;
+                }
                 let id = format!("STR/prove/deg={}/key={}/{}", deg, kn, pat);
                 if !rec.take(&id) {
                     continue;
@@ -69,6 +72,16 @@ pub fn provers(rec: &mut Rec, dmax: usize, max_pts: usize) {
                 if pat == "top" {
                     coeffs = vec![F::zero(); deg + 1];
                     coeffs[deg] = F::one();
+                }
+                if pat == "hizero" {
+                    // a coefficient vector that is not normalized: the two highest entries are zero
+                    coeffs[deg] = F::zero();
+                    coeffs[deg - 1] = F::zero();
+                }
+                if pat == "alternating" {
+                    for i in (1..=deg).step_by(2) {
+                        coeffs[i] = F::zero();
+                    }
                 }
                 let max_degree = (ksize - 1).max(1);
                 let ck = str_key(max_degree, max_pts, rec.seed);
@@ -151,6 +164,45 @@ pub fn provers(rec: &mut Rec, dmax: usize, max_pts: usize) {
                     // the verifier key holds min(max_degree + 1, max_eval_points + 1) G2 powers
                     if pset.len() > max_degree.min(max_pts) {
                         continue;
+                    }
+                    // on the dense pattern also: Z(x) * (x^k + c) + 1, whose quotient by Z has zero coefficients
+                    if pat == "dense" && deg >= pset.len() + 2 {
+                        let mut zpoly = vec![F::one()];
+                        for z in pset.iter() {
+                            let mut nz = vec![F::zero(); zpoly.len() + 1];
+                            for (i, c) in zpoly.iter().enumerate() {
+                                nz[i + 1] += *c;
+                                nz[i] -= *z * *c;
+                            }
+                            zpoly = nz;
+                        }
+                        let k = deg - pset.len();
+                        let mut cv = vec![F::zero(); deg + 1];
+                        for (i, c) in zpoly.iter().enumerate() {
+                            cv[i + k] += *c;
+                            cv[i] += r[1] * *c;
+                        }
+                        cv[0] += F::one();
+                        let revv: Vec<F> = cv.iter().rev().cloned().collect();
+                        let sv = revv.as_slice();
+                        rec.count_points(1);
+                        rec.op(2);
+                        match (catch(|| ck.open_multi_points(&cv, &pset)), catch(|| sck.open_multi_points(&sv, &pset, 3))) {
+                            (Ok(ptv), Ok((rsv, psv))) => {
+                                let mut want = ref_remainder(&cv, &pset);
+                                want.reverse();
+                                rec.class(if psv == ptv && rsv == want { "sparse-quotient-ok" } else { "sparse-quotient-differs" });
+                                if psv != ptv {
+                                    all_equal = false;
+                                    viol(rec, "open_multi_points/time!=space", &id, format!("points {{{}}}: proofs differ for Z(x)*(x^{} + c) + 1 (sparse quotient)", pn, k));
+                                }
+                                if rsv != want {
+                                    all_equal = false;
+                                    viol(rec, "open_multi_points/remainder", &id, format!("points {{{}}}: remainder differs from p mod Z for Z(x)*(x^{} + c) + 1", pn, k));
+                                }
+                            }
+                            (a, b) => viol(rec, "space/open_multi_points-panics", &id, format!("points {{{}}}: sparse-quotient polynomial: time {:?} / space {:?}", pn, a.err(), b.err())),
+                        }
                     }
                     let pt = match catch(|| ck.open_multi_points(&coeffs, &pset)) {
                         Ok(x) => x,
